@@ -190,6 +190,7 @@ def run(tier, only=None):
             conflicts.append((key, hs_, lang, msg))
     # ---- (2) meaning, ordered pairs: one CBMC job per first header, one TU per pair
     jobs = []
+    unusable = []
     for a in hs:
         extra = {}
         calls = []
@@ -203,7 +204,18 @@ def run(tier, only=None):
             body += meaning_asserts(base[a], '%s then %s' % (a, b))
             body += meaning_asserts(base[b], '%s then %s' % (a, b))
             body.append('}')
-            extra['pair_%s.c' % re.sub(r'\W', '_', b)] = '\n'.join(body) + '\n'
+            text = '\n'.join(body) + '\n'
+            # the TU uses every public name of both headers: if it does not compile although the bare include
+            # pair does, a public name is no longer declared / usable in this combination
+            rcu, ou, eu = sh(['gcc', '-std=gnu99', '-fsyntax-only', '-w', '-D__CPROVER__', '-I' + core.HARNESS_DIR, '-I' + INC, '-x', 'c', '-'], text.encode())
+            if rcu != 0:
+                errs = [l for l in eu.splitlines() if 'error' in l]
+                first = re.sub(r'^<stdin>:\d+:\d+:\s*', '', errs[0]) if errs else eu[-200:]
+                key = 'C20 unusable %s then %s: %s' % (a, b, first)
+                if not chk.known_external(key):
+                    unusable.append((key, (a, b), text, eu))
+                continue
+            extra['pair_%s.c' % re.sub(r'\W', '_', b)] = text
             calls.append(fn)
         if not calls:
             continue
@@ -282,6 +294,12 @@ def run(tier, only=None):
                 chk.notes.append('%s: %d public names change meaning: %s' % (who, len(names), ', '.join(names[:12])))
             else:
                 chk.add_inconclusive('%s: changed meaning of %s not reproduced natively (%s)' % (who, names[:5], c['status']))
+    for key, (a, b), text, eu in unusable[:6]:
+        d = os.path.join(core.REPLAY_DIR, 'C20-unusable-%s' % re.sub(r'\W', '_', a + '__' + b)[:120])
+        os.makedirs(d, exist_ok=True)
+        open(os.path.join(d, 'tu.c'), 'w').write(text)
+        open(os.path.join(d, 'README'), 'w').write('gcc -std=gnu99 -fsyntax-only -D__CPROVER__ -I/verif/harness -I/repo/include tu.c\n' + eu[-1500:] + '\n')
+        chk.add_violation_external(key[:300], d, eu[-1500:])
     # compile conflicts -> violations with a replay directory holding the TU
     for key, hs_, lang, msg in conflicts[:12]:
         d = os.path.join(core.REPLAY_DIR, 'C20-compile-%s-%s' % (lang.replace('+', 'x'), re.sub(r'\W', '_', '__'.join(hs_))[:120]))
